@@ -365,6 +365,19 @@ def check_bounds(case, ctx):
     if "tp" in A:
         v = A["tp"][~np.isnan(A["tp"])]
         need((v >= 1 / fmax * (1 - 1e-6)) & (v <= 1 / fmin * (1 + 1e-6)), "tp-range", "tp=%r outside [%r,%r]" % (v[:4], 1 / fmax, 1 / fmin))
+        # "within the frequency range" is not met by an undefined period: where the direction-integrated spectrum has a clear
+        # interior maximum (also when a boundary bin holds more energy than it), tp and dpm exist
+        tol_ = 1e-9 if case["dtype"] == "float64" else 1e-4
+        tpv = A["tp"].reshape(-1)
+        for p_, (lead_, idx, E) in enumerate(_positions(da, True)):
+            S = R.Spec(E, f, dirs).S
+            top = S.max()
+            clear = [i for i in range(1, len(S) - 1) if S[i] > S[i - 1] + tol_ * top and S[i] > S[i + 1] + tol_ * top]
+            near = [i for i in range(1, len(S) - 1) if S[i] >= S[i - 1] - tol_ * top and S[i] >= S[i + 1] - tol_ * top and S[i] > 0]
+            if clear and set(near) == set(clear) and np.isnan(tpv[p_]):
+                raise Violation("tp-undefined", "tp is NaN although E(f)=%s has a clear interior maximum at f=%s" % (np.round(S, 6).tolist(), [float(f[i]) for i in clear]))
+            if clear and S[[0, -1]].max() > max(S[i] for i in clear):
+                ctx.label("boundary-bin-above-interior-peak")
     d32 = dirs.astype(np.float32).astype(np.float64)
     for v in A["dp"].ravel():
         if not np.any(np.abs(d32 - v) <= 1e-4) and not np.any(np.abs(dirs - v) <= 1e-4):
